@@ -125,7 +125,10 @@ VRStep(B, declMax, st) ==
 ReaderDone(B, st) == st.pos > Len(B)
 
 (* clauses decided at end of file                                          *)
-EofClauses(st) == IF st.open /\ ~st.stop THEN {"C02.RecordTerminated"} ELSE {}
+(* (a reader that had to stop before the end of the file has not reassembled "the segments of the output file": whatever  *)
+(*  follows - a second label, stale bytes of an earlier file or chunk - is content the writer was not given)                *)
+EofClauses(st) == (IF st.open /\ ~st.stop THEN {"C02.RecordTerminated"} ELSE {})
+             \cup (IF st.stop THEN {"C02.Reassembles"} ELSE {})
 
 (* ---------------- whole-file fold (small files only) -------------------- *)
 RECURSIVE ReadLoop(_, _, _, _)
